@@ -9,7 +9,7 @@ numeric (NumOps) / bool operators, and printed as a Gallina Definition over an a
 
 Subset: let (ident or tuple pattern, shadowing allowed), if/else, arithmetic, comparisons, && || !, unary -,
 deref/ref (erased), `as` casts (erased, recorded), method calls abs/max/min/floor/sqrt(only in *_sq recipes)/
-unwrap_or/is_some/is_none/clone, field access, tuple literals, struct literals, Some/None/Ok/Err,
+unwrap_or/is_some/is_none/clone/clamp, Option map/filter with a closure, local closures (inlined), vec!, field access, tuple literals, struct literals, Some/None/Ok/Err,
 calls of other translated items, assert!(..) statements (collected into <name>_pre), and `match` on an
 Option with Some(x)/None arms or a two-arm tuple-of-options match.
 Anything outside the subset raises Untranslatable: the tie is then broken and the check reports it.
@@ -676,6 +676,8 @@ class Emitter:
             if len(parts) == 1:
                 name = parts[0]
                 if name in env:
+                    if env[name][0] is None:
+                        raise Untranslatable("closure %s used as a value" % name)
                     return env[name][0], env[name][1]
                 if name in CONSTS:
                     return CONSTS[name][0], CONSTS[name][1]
@@ -809,6 +811,16 @@ class Emitter:
                 if ty in ("N", "Z"):
                     return "(%s.%s %s %s)" % (ty, name, ta, tb), ty
                 raise Untranslatable("max/min on %r" % (ty,))
+            if name == "clamp":
+                # x.clamp(lo, hi) = if x < lo {lo} else if x > hi {hi} else {x}  (= min(max(x, lo), hi) for lo <= hi)
+                if len(args) != 2:
+                    raise Untranslatable("clamp arity")
+                ta, ty = self.expr(obj, env, NUMT)
+                tl, tyl = self.expr(args[0], env, ty)
+                th, tyh = self.expr(args[1], env, ty)
+                if not (ty == tyl == tyh == NUMT):
+                    raise Untranslatable("clamp on %r, %r, %r" % (ty, tyl, tyh))
+                return "(min num (max num %s %s) %s)" % (ta, tl, th), ty
             if name == "unwrap_or":
                 ta, ty = self.expr(obj, env)
                 if not (isinstance(ty, tuple) and ty[0] == "option"):
@@ -879,6 +891,19 @@ class Emitter:
                     if cname == tail and len(cargs) == len(args):
                         targs = [self.expr(a, env, ct)[0] for a, ct in zip(args, cargs)]
                         return "(%s_%s num %s)" % (parts[-2], tail, " ".join(targs)), ("enum", parts[-2])
+            if len(parts) == 1 and tail in env and isinstance(env[tail][1], tuple) and env[tail][1][0] == "closure":
+                _, cparams, cbody, cenv = env[tail][1]
+                if len(cparams) != len(args):
+                    raise Untranslatable("closure %s arity" % tail)
+                env2 = dict(cenv)
+                lets = []
+                for pn, a in zip(cparams, args):
+                    ta, tya = self.expr(a, env)
+                    b = fresh(pn)
+                    lets.append("let %s := %s in" % (b, ta))
+                    env2[pn] = (b, tya)
+                tb, rty = self.body_of(cbody, env2, want)
+                return "(" + " ".join(lets) + " " + tb + ")", rty
             key2 = "::".join(parts[-2:])
             for key in (key2, tail):
                 if key in self.items:
@@ -1054,6 +1079,10 @@ class Emitter:
                     # a binding the model abstracts from: its value may only be used inside substituted expressions
                     self.opaque_seen.add(pat[1])
                     env.pop(pat[1], None)
+                    continue
+                if e[0] == "closure" and pat[0] == "pvar":
+                    # a local closure: calls are inlined at the call site (captured variables: the current bindings)
+                    env[pat[1]] = (None, ("closure", e[1], e[2], dict(env)))
                     continue
                 te, ty = self.expr(e, env)
                 if pat[0] == "pvar":
